@@ -100,7 +100,7 @@ theorem issued_is_decodable_shape (E : SignEnv) (signer : Option Cert) (kc : Nat
     (h : signWith E signer kc t = .ok c) :
     c.notBefore % 1000000000 = 0 ∧ c.notAfter % 1000000000 = 0 ∧
     (c.version = 2 → 1 ≤ c.name.length ∧ c.name.length ≤ Gen.cert_MaxNameLength ∧ ∀ g ∈ c.groups, g ≠ []) := by
-  obtain ⟨-, iss, -, v, hv, -, -, sig, -, -, -, -, rfl⟩ := (signWith_ok_iff E signer kc t c).mp h
+  obtain ⟨-, iss, -, v, hv, -, -, sig, -, -, -, -, rfl⟩ := ((signWith_ok_iff E signer kc t c).mp h).1
   have hk := validateVersion_ok hv
   obtain ⟨k1, -, -, -, -, k6, k7, -⟩ := hk
   simp only [fromTBS] at k1 k6 k7
@@ -165,7 +165,7 @@ theorem decoded_v2_fixed_point (b pk : List UInt8) (cv : Nat) (c : Cert) (rd : L
 
 theorem issued_v2_fixed_point (E : SignEnv) (signer : Option Cert) (kc : Nat) (t c : Cert)
     (h : signWith E signer kc t = .ok c) (hv : t.version = 2) : validateV2 c = .ok c := by
-  obtain ⟨-, iss, -, v, hval, -, -, sig, -, -, -, -, rfl⟩ := (signWith_ok_iff E signer kc t c).mp h
+  obtain ⟨-, iss, -, v, hval, -, -, sig, -, -, -, -, rfl⟩ := ((signWith_ok_iff E signer kc t c).mp h).1
   unfold validateVersion at hval
   have h1 : ¬ (fromTBS t iss).version = 1 := by simp only [fromTBS]; omega
   have h2 : (fromTBS t iss).version = 2 := by simp only [fromTBS]; omega
@@ -173,6 +173,32 @@ theorem issued_v2_fixed_point (E : SignEnv) (signer : Option Cert) (kc : Nat) (t
   have hv2 : validateV2 (fromTBS t iss) = .ok v := by simpa using hval
   have := Nebula.Lemmas.CertV2Idem.validateV2_idem _ _ hv2
   exact validateV2_signature v v sig this
+
+open Nebula.Lemmas.CertV2RT in
+/-- **What `SignWith` issues decodes back to itself, with no size hypothesis** (v2; false before the repair of the
+size disagreement: one 70000-byte group was issued and then refused by `unmarshalCertificateV2`). When the
+signing environment's size oracle is the codec's own (`V2.tooLarge`: `len(Marshal()) > MaxCertificateSize`), the
+size bound `roundtrip_v2` asks for is a consequence of issuance. -/
+theorem issued_v2_roundtrip (E : SignEnv) (hE : E.tooLarge = V2.tooLarge) (signer : Option Cert) (kc : Nat) (t c : Cert)
+    (h : signWith E signer kc t = .ok c) (hok : V2OK c) (rd : List UInt8) (he : V2.encodeDetails c = some rd) :
+    V2.unmarshal (V2.marshal rd c.curve (some c.publicKey) c.signature) [] 0 = .ok (c, rd) := by
+  have hfit := ((signWith_ok_iff E signer kc t c).mp h).2 hok.version
+  rw [hE] at hfit
+  unfold V2.tooLarge at hfit
+  rw [he] at hfit
+  simp only [decide_eq_false_iff_not, Nat.not_lt] at hfit
+  exact unmarshal_marshal c hok rd he hfit
+
+/-- Issuance refuses what the decoder would refuse for its size: `SignWith` never returns a v2 certificate whose
+standard encoding is longer than `MaxCertificateSize`. -/
+theorem issued_v2_fits (E : SignEnv) (hE : E.tooLarge = V2.tooLarge) (signer : Option Cert) (kc : Nat) (t c : Cert)
+    (h : signWith E signer kc t = .ok c) (hv : c.version = 2) (rd : List UInt8) (he : V2.encodeDetails c = some rd) :
+    (V2.marshal rd c.curve (some c.publicKey) c.signature).length ≤ Gen.cert_MaxCertificateSize := by
+  have hfit := ((signWith_ok_iff E signer kc t c).mp h).2 hv
+  rw [hE] at hfit
+  unfold V2.tooLarge at hfit
+  rw [he] at hfit
+  simpa using hfit
 
 /-- **decode_total**: the decoders are total functions of their input — for every byte string, key and curve
 each of them returns a certificate or one of finitely many error values; there is no panic outcome in the
